@@ -35,6 +35,12 @@ func (o outOfSubset) Error() string { return o.msg }
 type fnEnc struct {
 	stable     []*ssa.Alloc
 	stableDone bool
+	// inlining of small helper functions without a contract (see inline.go)
+	ns        string            // name space of the SSA names of the function being inlined
+	inlCount  int
+	inlDepth  int
+	inlEntry  *retPoint         // entry state/reach of the function being inlined
+	hostBlock *ssa.BasicBlock   // block of the outermost function that contains the inlined call
 	eng  *Engine
 	fn   *ssa.Function
 	name string
